@@ -38,8 +38,8 @@ type Case struct {
 	Seed       uint64
 	Pair       string // regreg | samereg | samerepo | reg2dir | dir2reg | dir2dir
 	Mount      bool
-	Prepop     int  // percentage of the closure already at the target
-	PrepopAll  bool // the identical image (incl. tag) is already there
+	Prepop     int    // percentage of the closure already at the target
+	PrepopAll  bool   // the identical image (incl. tag) is already there
 	Again      bool   `json:",omitempty"` // fault runs: the same client copies once more afterwards, with no fault
 	Cache      bool   `json:",omitempty"` // the client caches responses (reg.WithCache), as regctl and regsync do
 	DirPre     string `json:",omitempty"` // layout targets: "blobs" (a subset of the blobs), "all" (the identical image), "listed" (index.json lists the image under the tag but its manifest file is gone)
@@ -61,28 +61,29 @@ type Case struct {
 }
 
 type world struct {
-	src, tgt *memreg.Registry
-	rt       *memrt.RT
-	rc       *regclient.RegClient
-	g        *imgen.Graph
-	srcRef   ref.Ref
-	tgtRef   ref.Ref
-	srcRepo  string
-	tgtRepo  string
-	tgtDir   string
-	srcDir   string
-	tgt0     map[string]bool
-	tag0     string
-	mu       sync.Mutex
-	reqN     int
-	hook     func(n int, req *http.Request) *http.Response
+	src, tgt     *memreg.Registry
+	rt           *memrt.RT
+	rc           *regclient.RegClient
+	g            *imgen.Graph
+	srcRef       ref.Ref
+	tgtRef       ref.Ref
+	srcRepo      string
+	tgtRepo      string
+	tgtDir       string
+	srcDir       string
+	tgt0         map[string]bool
+	tag0         string
+	mu           sync.Mutex
+	reqN         int
+	hook         func(n int, req *http.Request) *http.Response
+	mountFaulted map[string]bool
 }
 
 func (w *world) tgtIsReg() bool { return w.tgtDir == "" }
 
 func build(c Case, dir string) (*world, error) {
 	r := lib.NewRand(c.Seed)
-	w := &world{tgt0: map[string]bool{}}
+	w := &world{tgt0: map[string]bool{}, mountFaulted: map[string]bool{}}
 	uniq := fmt.Sprintf("g%x", c.Seed&0xffff)
 	if c.Kind == "gate" {
 		g := &imgen.Graph{}
@@ -515,6 +516,24 @@ func run(c Case, dir string, res *lib.Result) (ret string) {
 				}
 				return nil
 			}
+			// the first mount request of the copy meets one transient fault (one fault in all: the backoff count is per host and
+			// several concurrent faults reach the limit, after which falling back to a transfer is by design): it is retried and
+			// the mount still replaces the transfer
+			if c.FaultKind == "mount429" || c.FaultKind == "mount502" {
+				if req.Method == "POST" && strings.Contains(req.URL.RawQuery, "mount=") && strings.Contains(req.URL.RawQuery, "from=") {
+					w.mu.Lock()
+					seen := len(w.mountFaulted) > 0
+					w.mountFaulted[req.URL.RawQuery] = true
+					w.mu.Unlock()
+					if !seen {
+						if c.FaultKind == "mount429" {
+							return memrt.Resp(429, nil, nil)
+						}
+						return memrt.Resp(502, nil, nil)
+					}
+				}
+				return nil
+			}
 			if c.FaultKind == "referrers" {
 				if strings.Contains(req.URL.Path, "/referrers/") {
 					return memrt.Resp(500, nil, nil)
@@ -777,7 +796,7 @@ func run(c Case, dir string, res *lib.Result) (ret string) {
 			if k > 1 && noFault {
 				res.Fail("blob-downloaded-twice pair="+c.Pair, fmt.Sprintf("blob %s was fetched from the source %d times", short(d), k), c)
 			}
-			if c.Pair == "samereg" && c.Mount && noFault {
+			if c.Pair == "samereg" && c.Mount && (noFault || strings.HasPrefix(c.FaultKind, "mount")) {
 				res.Fail("transfer-despite-mount pair=samereg", fmt.Sprintf("same registry with mounts granted, but blob %s was downloaded", short(d)), c)
 			}
 		}
@@ -1062,6 +1081,9 @@ func Run(focus string) func(o lib.Opts) {
 				Case{Kind: "fault", Seed: 5193, Pair: "dir2reg", XGraph: true, FaultAt: 4, FaultKind: "reset", FaultN: 5})
 		}
 		if focus == "C14" {
+			for i := uint64(0); i < 6; i++ { // one transient fault on the first mount request
+				all = append(all, Case{Kind: "fault", Seed: 4700 + i, Pair: "samereg", Mount: true, FaultKind: lib.Pick(r, []string{"mount429", "mount502"}), Latency: i%2 == 0})
+			}
 			all = append(all, Case{Kind: "copy", Seed: 11, Pair: "regreg", PrepopAll: true, NoHeadDig: true}, Case{Kind: "copy", Seed: 12, Pair: "regreg", PrepopAll: true},
 				Case{Kind: "copy", Seed: 13, Pair: "samerepo"}, Case{Kind: "copy", Seed: 14, Pair: "samereg", Mount: true}, Case{Kind: "copy", Seed: 15, Pair: "samereg", Mount: true, Latency: true})
 		}
